@@ -1333,3 +1333,109 @@ func c18PublishedBehindTheSweep(c *Ctx) {
 		c.Cond(bad == "", ob, key, c.Pos(pub), "flag read under Engine.mux behind the table store; true edge closes", bad)
 	}
 }
+
+// ---------------------------------------------------------------- C18.O18
+
+// c18AcceptLoopLeaves: the goroutine nbhttp starts per listener is counted in
+// the engine's WaitGroup, which Stop waits for.  It must end when its listener
+// is closed — also when the shutdown flag is not set (a failed Start closes
+// the listeners it has opened and then calls Stop) — and must not keep a
+// connection it accepted while shutting down.
+func c18AcceptLoopLeaves(c *Ctx) {
+	const ob = "C18.O18"
+	ln := c.Fn(ob, "(*nbhttp.Engine).listen")
+	if ln == nil {
+		return
+	}
+	var loop *ssa.Function
+	for _, g := range ir.Closures(ln) {
+		for _, cs := range c.P.Calls(g, nil) {
+			if cs.Common.IsInvoke() && cs.Common.Method.Name() == "Accept" {
+				loop = g
+			}
+		}
+	}
+	if loop == nil {
+		c.Unres(ob, fnKey(c.P, ln, "accept loop"), "the accepting closure was not found")
+		return
+	}
+	fi := c.P.Info(loop)
+	var accept ssa.Instruction
+	for _, cs := range c.P.Calls(loop, nil) {
+		if cs.Common.IsInvoke() && cs.Common.Method.Name() == "Accept" {
+			accept = cs.In
+		}
+	}
+	// (a) a closed listener ends the loop
+	{
+		key := fnKey(c.P, loop, "a closed listener ends the accept loop")
+		bad := "the accept loop never looks whether its listener is closed: once the listener is closed while the shutdown flag is not set (a failed Start closes the listeners it opened, then calls Stop) Accept fails at once, for ever; the goroutine spins and never reaches its deferred Done, and Stop waits in the engine's WaitGroup for ever"
+		for _, i := range fi.Ifs() {
+			e, target, is, ok := c.P.ErrorsIsTest(i.Cond, true)
+			_ = e
+			if !ok || !strings.HasSuffix(target, "ErrClosed") {
+				continue
+			}
+			edge := 1
+			if is {
+				edge = 0
+			}
+			vis, _ := fi.ReachFromEdge(i, edge, nil)
+			if vis[accept] {
+				bad = "the closed-listener edge at " + c.Pos(i) + " goes round the loop again"
+			} else {
+				bad = ""
+			}
+		}
+		c.Cond(bad == "", ob, key, c.FnPos(loop), "errors.Is(err, net.ErrClosed) leaves the loop", bad)
+	}
+	// (b) what was accepted while shutting down is closed
+	{
+		key := fnKey(c.P, loop, "a connection accepted while shutting down is closed")
+		bad := ""
+		// paths from Accept on which err == nil: each reaches the hand-over (a dynamic call with the connection) or Close
+		var errv ssa.Value
+		if v, ok := accept.(ssa.Value); ok {
+			if refs := v.Referrers(); refs != nil {
+				for _, r := range *refs {
+					if e, ok := r.(*ssa.Extract); ok && e.Index == 1 {
+						errv = e
+					}
+				}
+			}
+		}
+		if errv == nil {
+			c.Unres(ob, key, "Accept's error result not found")
+			return
+		}
+		handled := func(in ssa.Instruction) bool {
+			cs, ok := ir.AsCall(in)
+			if !ok {
+				return false
+			}
+			if cs.Common.IsInvoke() && cs.Common.Method.Name() == "Close" {
+				return true
+			}
+			// addConn(&Conn{Conn: conn}, ...): a call of the function parameter
+			return cs.Common.StaticCallee() == nil && !cs.Common.IsInvoke() && len(cs.Common.Args) >= 1
+		}
+		paths, exits, complete := pathFactsAvoiding(fi, accept, handled, 4000)
+		if !complete {
+			c.Unres(ob, key, "path enumeration incomplete")
+			return
+		}
+		for k, p := range paths {
+			nilErr, known := false, false
+			for _, ft := range p {
+				x, isNil, ok := ir.NilTest(ft.Cond, ft.Truth)
+				if ok && ir.Resolve(x) == errv {
+					nilErr, known = isNil, true
+				}
+			}
+			if known && nilErr {
+				bad = "on a path from Accept with err == nil (leaving at " + c.Pos(exits[k]) + ") the accepted connection is neither handed over nor closed: a connection accepted while the shutdown flag is already set stays open and untracked"
+			}
+		}
+		c.Cond(bad == "", ob, key, c.Pos(accept), "every err == nil path hands the connection over or closes it", bad)
+	}
+}
